@@ -43,7 +43,7 @@ fn route_for(actor: &Arc<Actor>) -> Route {
 }
 
 const TS_SETS: &[&[f64]] = &[&[], &[0., 10.], &[10., 20.], &[0., 10., 40.], &[10., 20., 40.], &[0., 10., 20., 40.]];
-const QUERY_TIMES: &[f64] = &[-5., 0., 3., 5., 10., 10.5, 15., 20., 25., 30., 40., 99.];
+const QUERY_TIMES: &[f64] = &[-5., 0., 2.5, 3., 5., 10., 10.5, 12.25, 15., 19.9, 20., 25., 30., 33.3, 40., 99.];
 const SCALES: &[f64] = &[1., 0.5, 2.];
 
 fn permutations(n: usize) -> Vec<Vec<usize>> {
@@ -86,7 +86,9 @@ fn spec(profile: usize, from: usize, to: usize, t: f64, ts: &[f64]) -> (SpecDur,
     }
     let r = ts.iter().position(|x| *x > t).unwrap();
     let l = r - 1;
-    let d = if t.fract() == 0. {
+    // linear in time; only inside the first second after a timestamp the library answers with the matrix value itself
+    // (it looks the whole second up), which is accepted as "between the bracketing matrices"
+    let d = if t.fract() == 0. || !ts.contains(&t.floor()) {
         let ratio = (t - ts[l]) / (ts[r] - ts[l]);
         SpecDur::Exact(dur(l) + ratio * (dur(r) - dur(l)))
     } else {
